@@ -164,7 +164,7 @@ func isEnc(mt frame.MessageType) bool { return mt.IsEncrypted() }
 func TestC02(t *testing.T) {
 	env := kit.GetEnv()
 	rep := kit.NewReport("C02", env)
-	rep.Rule = "grid A (round trip, wrong sessions, clear-text scan, appendix replaced / grown by a relay to 7 sizes across the pooled tiers after sealing): full cross product of 7 message types x payload sizes x switch-block sizes x appendix sizes x builder margins; grid B (tamper), on fresh sessions and on a warm session whose sender has received 70 in-sequence frames per class (receive-rate byte at its maximum): for a sub-grid, every bit of every byte of the serialized frame is flipped (larger frames: every bit of all fields except payload/appendix interior, where one bit per byte is flipped) and judged by a reference layout computed from sizes; each harmless-position flip is applied to a freshly sealed frame so replay protection cannot mask the result; non-trivial = the mutation changed a byte (always) / the round trip crossed a pooled-buffer tier or used a switch block or appendix; distinct = distinct (config, bit position)"
+	rep.Rule = "grid A (round trip, wrong sessions, clear-text scan, appendix replaced / grown by a relay to 7 sizes across the pooled tiers after sealing): full cross product of 7 message types x payload sizes x switch-block sizes x appendix sizes x builder margins; grid B (tamper), on fresh sessions and on a warm session whose sender has received 70 in-sequence frames per class (receive-rate byte at its maximum): for a sub-grid, every bit of every byte of the serialized frame is flipped (larger frames: every bit of all fields except payload/appendix interior, where one bit per byte is flipped) and judged by a reference layout computed from sizes; each harmless-position flip is applied to a freshly sealed frame so replay protection cannot mask the result; learned sessions: in converged lines / rings / trees of 4-6 real routers (sessions acquired from links and from the hop records of relayed announcements, two announcement orders) every router unseals, per other router T, a signed frame of two types sealed by T (must succeed, exact payload) and frames claiming T sealed by every other router (must fail); non-trivial = the mutation changed a byte (always) / the round trip crossed a pooled-buffer tier or used a switch block or appendix; distinct = distinct (config, bit position)"
 	rep.Assumptions = []string{
 		"ChaCha20-Poly1305 and Ed25519 are correct; the check exercises how the frame code uses them (which bytes are covered), not the primitives",
 		"sizes between the enumerated ones behave like the enumerated ones (all pooled-buffer tier boundaries and the field-size extremes are in the grid)",
@@ -263,6 +263,8 @@ func TestC02(t *testing.T) {
 		evals += n
 		nontrivial += n
 	}
+	// ---------- sessions as a running router acquires them.
+	learnedSessions(t, rep, env, &idx, &evals, &nontrivial)
 	rep.Add(evals, nontrivial, 0, 0)
 	if err := rep.Finish(env); err != nil {
 		t.Fatal(err)
